@@ -54,11 +54,14 @@ def feed(report, reps, kinds, need_spec=False):
                           meta=meta))
 
 
-def install_replayer(report):
+def install_replayer(report, dense=False):
     envs = {}
 
     def replayer(ob, base):
         from engine import replay_wrapper
+        if ob.meta.get('cfile') == 'dense.c':
+            from engine import replay_dense
+            return replay_dense.replay_obligation(ob, ob.meta, base, envs)
         if not ob.meta.get('params'):
             return False, {'reason': 'no argument description for replay'}
         return replay_wrapper.replay_obligation(ob, ob.meta, base, envs)
@@ -68,3 +71,7 @@ def install_replayer(report):
             e.close()
     report.replayer = replayer
     report.cleanup = cleanup
+
+
+def install_dense_replayer(report):
+    install_replayer(report, dense=True)
